@@ -27,8 +27,12 @@ EXPLANATION = (
     "six right contexts, the README's examples, ~60 malformed texts - and compared with a reference reading written from the README "
     "(sa/rules/parseref.py): accepted exactly when in the documented syntax, and the same token tree: kinds, unescaped literal text, the case flag in "
     "force at each literal (flags apply in text order, also into and out of groups), class members / ranges / negation, bounds, which separators a "
-    "tree wildcard absorbs.  Texts on which the README is silent (a flag between the separator and the stars of a tree wildcard) are skipped.")
-RULES = "C01.whole (TABLE on a catalogue: program vs. reference language), C01.leaf, C01.tree, C01.flag, C01.dotall, C01.homo, C01.anchor (EMIT), C01.delegate (SIBLING+PROV), C01.bounds (TABLE: parser function vs. README), C01.parse (TABLE on a text catalogue: parser vs. reference reading)"
+    "tree wildcard absorbs.  Texts on which the README is silent (a flag between the separator and the stars of a tree wildcard) are skipped; "
+    "(text) for ~4 200 texts that carry what the token catalogue of C01.whole lacks - flags anywhere, classes, escapes, multi-byte text, the README's "
+    "examples - the whole route from the text is evaluated (parser, rule checker, encode::compile) and the program it arrives at is compared, as an "
+    "automaton, with the language the README gives to the tokens (literals under their own case flag, classes case-sensitive and separator-free, "
+    "wildcards, alternation, repetition, top-level tree wildcards).")
+RULES = "C01.whole (TABLE on a catalogue: program vs. reference language), C01.leaf, C01.tree, C01.flag, C01.dotall, C01.homo, C01.anchor (EMIT), C01.delegate (SIBLING+PROV), C01.bounds (TABLE: parser function vs. README), C01.parse (TABLE on a text catalogue: parser vs. reference reading), C01.text (TABLE on a text catalogue, end to end: text -> program vs. reference language)"
 
 
 def run(ctx):
@@ -50,6 +54,7 @@ def run(ctx):
     exhaust.report_query(F, R, "C01.whole", ctx.tier, "semantics", 15000, 4000)
     from . import parsecat
     parsecat.report(F, R, "C01.parse", ctx.tier, ("tokens", "accepts", "rejects"), 12000)
+    parsecat.report_semantics(F, R, "C01.text", ctx.tier, 4000)
 
 
 def rule_delegate(F, R):
